@@ -18,3 +18,20 @@ Fixpoint mism_from {A} (ok : A -> bool) (i : nat) (cs : list A) : list nat :=
   end.
 Definition c09_tracer_mismatches := mism_from tcase_ok 0.
 Definition c09_grammar_mismatches := mism_from grammar_ok 0.
+
+(* cancellation with senders still at work (Model/TracerEnd.v): (registered senders, traces the prompt subscriber had
+   seen when the context was cancelled, log of the prompt subscriber 0, log of the slow unbuffered subscriber 1).
+   The history: both subscribe, the traces in the order subscriber 0 saw them with the cancellation in between -- the
+   slow subscriber never ready -- and then every sender done. The model with the push of the sources must end with
+   exactly the two observed logs. *)
+From BV Require Import Model.TracerEnd Gen.Facts.
+Definition list_eqb (a b : list nat) : bool := is_prefix a b && is_prefix b a.
+Definition ecase_ok (c : N * N * list N * list N) : bool :=
+  let '(n0, at0, fast0, slow0) := c in
+  let n := N.to_nat n0 in let at_ := N.to_nat at0 in
+  let fast := map N.to_nat fast0 in let slow := map N.to_nat slow0 in
+  let tr := map (fun t => ETr t [1]) fast in
+  let cs := [ESub 0; ESub 1] ++ firstn at_ tr ++ [ECancel] ++ skipn at_ tr ++ repeat EDone n in
+  let st := erun (mode_of src_push_waits_for_the_subscriber) n cs in
+  ended st && list_eqb (log_of 0 (logs (core st))) fast && list_eqb (log_of 1 (logs (core st))) slow.
+Definition c09_end_mismatches := mism_from ecase_ok 0.
